@@ -71,9 +71,10 @@ def run(ctx):
             mols = c02.SYNTH_MOLS
         else:
             fam = c02.FAMILY[n]
-            mols = fam if thorough else fam[(ctx.seed + 1) % 3::3][:12] + ([r'C/C=C\CCCCC/C=C\C'] + c02.KEY) * (fam is c02.GAS)
+            mols = fam if thorough else (fam[:4] + [r'C/C=C\C'] if fam is c02.PPYL else
+                                         fam[(ctx.seed + 1) % 3::3][:12] + ([r'C/C=C\CCCCC/C=C\C'] + c02.KEY) * (fam is c02.GAS))
             mols = list(dict.fromkeys(mols)) + c02.OUTSIDE[:2]
-            if fam is c02.GAS:
+            if fam is c02.GAS or (thorough and fam is c02.PPYL):
                 mols = mols + list(FUSED)
         for smi in mols:
             sp = spellings(rng_, smi, 30 if thorough else 6, all_perms=thorough)
